@@ -245,8 +245,11 @@ def run(ctx):
         where = ctx.where(fc, e.node)
         if e.kind == "assign":
             old = e.old
-            d = T.sub(e.value, old) if old is not None else e.value
-            if d[0] == "seq" and len(d[1]) == 1:
+            d = T.sub(e.value, old) if old is not None and e.value[0] != "concat" else e.value
+            v = e.value
+            if v[0] == "concat" and v[1] == old and v[2][0] == "seq" and len(v[2][1]) == 1:
+                item = v[2][1][0]
+            elif d[0] == "seq" and len(d[1]) == 1:
                 item = d[1][0]
             else:
                 raise AnalysisError(f"{where}: growth of the interface list not understood: {T.show(d)[:120]}")
